@@ -161,9 +161,14 @@ pub trait PacketTrait: Serialize {
 
     /// Length in bytes used when calling `to_writer_with_header`.
     fn write_len_with_header(&self) -> usize {
-        let mut sum = self.packet_header().write_len();
-        sum += self.write_len();
-        sum
+        // mirror `to_writer_with_header`: the header that gets written is derived from
+        // `write_len()`, not from the (possibly stale, or partial) stored length
+        let len = self.write_len();
+        let header_len = match self.packet_header().packet_length() {
+            PacketLength::Indeterminate => 1,
+            _ => self.packet_header().version().header_len(len),
+        };
+        header_len + len
     }
 }
 
